@@ -263,7 +263,7 @@ def _run(scn, cfg, w, res):
     outstanding = 0
     premise_broken = False
     cur_pipe = cfg["pipe"]
-    stale = False
+    stale = set()     # drivers whose last send() failed: its payload is still in their TX FIFO (documented, for resend())
     for op in scn["ops"]:
         if op["op"] == "retarget":
             if conc or not fwd or not cfg.get("alt"):
@@ -306,9 +306,9 @@ def _run(scn, cfg, w, res):
                 continue
             drain_all()
             outstanding = 0
-            if stale:
+            if id(tx) in stale:
                 tx.flush_tx()
-                stale = False
+                stale.discard(id(tx))
             bufs = [_mk(b, t) for b, t in zip(op["bufs"], op["types"])]
             if cfg["dyn"] is False:
                 pass
@@ -381,11 +381,13 @@ def _run(scn, cfg, w, res):
             # the medium is dead when the call begins and heals a seeded while later (during the first cycle, or during a forced retry)
             w.air.blackout = True
             sim.after(heal * MS, setattr, w.air, "blackout", False)
-        if stale and op["op"] == "write":
+        if id(tx) in stale and op["op"] == "write":
             # documented: a failed send() leaves its payload in the TX FIFO (for resend()); send() discards it by itself,
             # before a bare write() the application has to
             tx.flush_tx()
-        stale = dead
+        stale.discard(id(tx))        # (send() discards a failed predecessor itself; before a bare write() the harness just did)
+        if dead:
+            stale.add(id(tx))
         try:
             if op["op"] == "send":
                 ret = tx.send(arg, ask_no_ack=op["ask_no_ack"], **kw)
@@ -436,7 +438,7 @@ def _run(scn, cfg, w, res):
         if heal is not None and not ret:
             # every attempt (forced retries included) fell into the dead phase: nothing was delivered, nothing is owed
             w.air.blackout = False
-            stale = True
+            stale.add(id(tx))
             sim.count("healing_send_failed")
             continue
         if heal is not None:
